@@ -112,6 +112,7 @@ class UnitResult:
         self.assumptions = []
         self.cmd = ''
         self.raw_err = ''
+        self.degraded = []          # fn blocks that could not be posed on this tree: [{'name','file','props','reason'}]
 
 
 def scan_assumptions(text):
@@ -308,12 +309,40 @@ def classify(diag, meta, gen_lines):
     return rec
 
 
-def verify_unit(unit, vacuity=True, extra=None, tag=''):
+def verify_unit(unit, vacuity=True, extra=None, tag='', degrade_ok=True):
+    """Verify one unit.  A function block that cannot be POSED on this tree (lost anchor, construct outside the
+    subset, a call the shims do not know) is degraded to an assumed stub and the rest of the unit is still verified
+    (up to 3 rounds); the degraded functions are reported in r.degraded and are never counted as proved."""
+    degrade = {} if degrade_ok else None
+    r = None
+    for _round in range(4):
+        r = _verify_unit_once(unit, vacuity, extra, tag, degrade)
+        if degrade is None or r.status != 'error' or r.meta is None:
+            break
+        # which fn blocks do the processing errors sit in?
+        bad = {}
+        for f in r.failures:
+            if f['class'] != 'error':
+                continue
+            for sp in f.get('spans', []):
+                gl = sp.get('gen_line')
+                if not gl:
+                    continue
+                for k, fb in enumerate(r.meta['fns']):
+                    if fb['gen_start'] <= gl <= fb['gen_end'] and not fb.get('degraded'):
+                        bad.setdefault(k, 'verus could not process the function: ' + f['message'][:200])
+        if not bad or _round == 3:
+            break
+        degrade.update(bad)
+    return r
+
+
+def _verify_unit_once(unit, vacuity, extra, tag, degrade):
     r = UnitResult(unit)
     t0 = time.time()
     os.makedirs(GEN, exist_ok=True)
     try:
-        text, meta = extract.generate(unit)
+        text, meta = extract.generate(unit, degrade=degrade)
     except ExtractError as e:
         r.status = 'error'
         r.message = 'extraction: %s' % e
@@ -325,6 +354,8 @@ def verify_unit(unit, vacuity=True, extra=None, tag=''):
     stem = 'u_%s%s' % (unit, tag)
     meta['gen_file'] = stem + '.rs'
     r.meta = meta
+    r.degraded = [{'name': f['name'], 'file': f['file'], 'props': f['props'], 'reason': f['degraded'],
+                   'gen_start': f['gen_start'], 'gen_end': f['gen_end']} for f in meta['fns'] if f.get('degraded')]
     path = os.path.join(GEN, stem + '.rs')
     with open(path, 'w') as f:
         f.write(text)
@@ -378,20 +409,22 @@ def verify_unit(unit, vacuity=True, extra=None, tag=''):
         r.message = 'verus rc=%s without diagnostics: %s' % (rc, ' | '.join(raw[-3:]))
     shutil.rmtree(logdir, ignore_errors=True)
     if vacuity and r.status in ('ok', 'failed'):
-        r.vacuity = vacuity_pass(unit, tag)
+        r.vacuity = vacuity_pass(unit, tag, degrade)
     r.wall_s = time.time() - t0
     return r
 
 
-def vacuity_pass(unit, tag=''):
+def vacuity_pass(unit, tag='', degrade=None):
     """For every contracted function separately: re-verify the unit with `ensures false` added to THAT
     function only (so that callers never see a false postcondition); it must FAIL.  A function where
     `false` verifies has a contradictory precondition or an inconsistent shim."""
-    text0, meta0 = extract.generate(unit)
+    text0, meta0 = extract.generate(unit, degrade=degrade)
     n = len(meta0['fns'])
 
     def one(k):
-        text, meta = extract.generate_vacuity(unit, k)
+        if meta0['fns'][k].get('degraded'):
+            return True, []
+        text, meta = extract.generate_vacuity(unit, k, degrade)
         stem = 'v_%s%s_%d' % (unit, tag, k)
         path = os.path.join(GEN, stem + '.rs')
         with open(path, 'w') as f:
@@ -476,6 +509,10 @@ def tagged_functions(meta, pid, gen_text):
 
 
 def check_property(pid, tier='quick', seed=0, witness_hook=None):
+    if _SCRATCH:
+        # a scratch copy (VERIF_REPO: mutant / benign experiments) is judged by the verifier alone: the native witnesses
+        # are built against /repo itself and say nothing about the scratch tree
+        witness_hook = None
     t0 = time.time()
     units = units_for_property(pid)
     known = load_known()
@@ -523,6 +560,7 @@ def check_property(pid, tier='quick', seed=0, witness_hook=None):
     samples = []
     solver_ms = 0
     vac_checked = 0
+    degraded_fns = []
     for r in results:
         if r.status == 'error':
             # The verifier could not pose the question (lost anchor, construct outside the subset).  A bounded
@@ -538,6 +576,19 @@ def check_property(pid, tier='quick', seed=0, witness_hook=None):
         gen_text = open(r.gen_path).read()
         tf = tagged_functions(r.meta, pid, gen_text)
         solver_ms += r.smt_ms
+        # functions of this property that could not be posed on this tree (their contract is only ASSUMED in this run):
+        # the property is not decided by the verifier; a bounded stand-in may still decide AGAINST the code
+        for d in r.degraded:
+            if any(x['name'] == d['name'] and x['file'] == d['file'] for x in tf):
+                msg = 'function %s::%s could not be posed: %s' % (d['file'], d['name'], d['reason'])
+                degraded_fns.append({'unit': r.unit, 'function': '%s::%s' % (d['file'], d['name']), 'reason': d['reason']})
+                fb = fallback_witness(pid, r.unit, msg, witness_hook)
+                if fb:
+                    if not any(x['obligation'] == fb['obligation'] for x in fallback_violations):
+                        fallback_violations.append(fb)
+                else:
+                    undecided.append('%s: %s' % (r.unit, msg))
+        tf = [x for x in tf if not any(x['name'] == d['name'] and x['file'] == d['file'] for d in r.degraded)]
         for a in named_assumptions(gen_text):
             if a not in trusted:
                 trusted.append(a)
@@ -771,6 +822,7 @@ def check_property(pid, tier='quick', seed=0, witness_hook=None):
             'known_finding_obligations_excluded_from_counts': known_excluded,
             'violations': vio_out,
             'undecided': undecided,
+            'functions_not_posable_on_this_tree': degraded_fns,
             'extra_runs': extra_runs,
             'second_backend_runs': cvc5_runs,
             'kani_integer_kernels': kani_runs,
@@ -918,9 +970,11 @@ def dev_unit(unit, vacuity=True):
                 print(ln[:300])
     if r.vacuity:
         print('  vacuity: %s' % r.vacuity)
+    for d in r.degraded:
+        print('  NOT POSABLE (contract only assumed in this run): %s::%s -- %s' % (d['file'], d['name'], d['reason'][:300]))
     tot = sum(r.obligations.values())
     print('  obligations(AIR asserts)=%d functions=%d' % (tot, len(r.functions)))
-    return 0 if r.status == 'ok' else 1
+    return 0 if (r.status == 'ok' and not r.degraded) else 1
 
 
 # ------------------------------------------------------------------------------------------------
@@ -933,7 +987,10 @@ def dev_unit(unit, vacuity=True):
 
 def unit_json(unit, tag=''):
     r = verify_unit(unit, vacuity=False, tag=tag)
-    return {'unit': unit, 'status': r.status, 'message': r.message,
+    if r.status == 'ok' and r.degraded:
+        r.status = 'error'
+        r.message = 'not posable: ' + '; '.join('%s: %s' % (d['name'], d['reason'][:160]) for d in r.degraded)
+    return {'unit': unit, 'status': r.status, 'message': r.message, 'degraded': [d['name'] for d in r.degraded],
             'failures': [{'class': f['class'], 'obligation': f['obligation'], 'labels': f['labels'], 'props': f['props'],
                           'message': f['message'], 'site': f['site']} for f in r.failures]}
 
